@@ -697,7 +697,8 @@ def make_world(layout: str, origin_vertex: bool = False) -> dict:
     frac = 0.5 if lay['bounds'] == 'f' else 0  # Chaos stores node/leaf bounds as floats
     sgn = 1 if lay['bounds'] == 'I' else -1     # VitaminSource leaf bounds are unsigned
     w: dict = {}
-    w['textures'] = ['TOOLS/TOOLSNODRAW', 'brick/Wall01', 'nature/water_x']
+    # the last two names are a prefix and an inner substring of earlier ones (string-table de-duplication must not alias them)
+    w['textures'] = ['TOOLS/TOOLSNODRAW', 'brick/Wall01', 'nature/water_x', 'brick/Wall', 'ature/wat']
     w['texdata'] = [{'mat': 'brick/Wall01', 'refl': [0.25, 0.5, 0.125], 'w': 512, 'h': 256},
                     {'mat': 'nature/water_x', 'refl': [0.0, 0.75, 1.0], 'w': 64, 'h': 64}]
     w['texinfo'] = [
